@@ -76,7 +76,7 @@ generation unchanged); a `Release` after which no reference is left; or the fina
 itself when `i` was superseded before it returned — then its value was never stored and never
 given to any reference. So the value is not released while a reference that was given it is held
 and the value has not been invalidated. -/
-theorem rel_not_while_held (es : List Ev) (s : St) (h : model.run model.init es = some s)
+theorem rel_not_while_held_inv (s : St) (hi : Inv s)
     (e : Ev) (s' : St) (hs : model.step s e = some s') (i : Nat)
     (h0 : released s i = false) (h1 : released s' i = true) :
     (∃ a, e = .setCtxCS a ∧ s'.ctx ≠ s.ctx) ∨
@@ -85,7 +85,6 @@ theorem rel_not_while_held (es : List Ev) (s : St) (h : model.run model.init es 
     (e = .store i ∧ ∃ c, s.calls[i]? = some c ∧ c.stored = false ∧ c.nonce ≠ s.nonce ∧
       ∀ (a : Nat) (k : CbKind) (pc : Pc) (f sf : Bool) (t : Option Nat),
         s.th[a]? = some (.ref k pc true f sf t) → k ≠ .nil → t ≠ some i) := by
-  have hi := reachable_inv es s h
   rcases flip_cases s s' e i hi hs h0 h1 with ⟨_, s1, hk, _⟩ | ⟨he, c, val, err, hc, _, hn, hst, _, _⟩
   · cases hk with
     | ctxChange a he hc h' =>
@@ -103,6 +102,18 @@ theorem rel_not_while_held (es : List Ev) (s : St) (h : model.run model.init es 
     rw [ht] at this
     obtain ⟨c2, _, g1, g2, _⟩ := hi.core.curSome i this.symm
     rw [hc] at g1; cases g1; exact hn g2
+
+/-- `rel_not_while_held` for every event list -/
+theorem rel_not_while_held (es : List Ev) (s : St) (h : model.run model.init es = some s)
+    (e : Ev) (s' : St) (hs : model.step s e = some s') (i : Nat)
+    (h0 : released s i = false) (h1 : released s' i = true) :
+    (∃ a, e = .setCtxCS a ∧ s'.ctx ≠ s.ctx) ∨
+    (∃ j, e = .relRun j ∧ s.relRuns[j]? = some i) ∨
+    ((∃ b, e = .relCS b ∨ e = .selfRelCS b) ∧ liveRefs s' = 0) ∨
+    (e = .store i ∧ ∃ c, s.calls[i]? = some c ∧ c.stored = false ∧ c.nonce ≠ s.nonce ∧
+      ∀ (a : Nat) (k : CbKind) (pc : Pc) (f sf : Bool) (t : Option Nat),
+        s.th[a]? = some (.ref k pc true f sf t) → k ≠ .nil → t ≠ some i) :=
+  rel_not_while_held_inv s (reachable_inv es s h) e s' hs i h0 h1
 
 /-- the invariant behind "no leak": a release function that was returned, whose call has run its
 final section, and that has not been called belongs to the stored current value; and a value is
@@ -415,5 +426,36 @@ theorem quiescent_no_pending_api (s : St) (hq : quiescent s = true) : pendingIds
     | ref k pc live f sf told => cases k <;> simp [TS.pendingApi, this]
     | rel r pc => simp [TS.pendingApi, this]
     | ctx c cl pc u => simp [TS.pendingApi, this]
+
+
+/-! ## the hypotheses are satisfiable, the model does something -/
+
+/-- resolve, deliver, drop the last reference: the release function runs once, after the target was emptied -/
+def exRun1 : List Ev := [.cfg false 1 true, .invAddRef 0 .rcd, .addRefCS 0, .retAddRef 0, .enter 0 0,
+  .leave 0 0 1 true 0, .store 0, .cb (.refcb 0 true true 1 0), .done 0,
+  .invRelease 1 0, .relSwap 1, .relCS 1, .cb (.rel 0 0 0), .retRelease 1, .probe 0 0, .quiesce []]
+
+example : (model.run model.init exRun1).isSome = true := by decide
+example : relCalls exRun1 0 = 1 := by decide
+
+/-- two restarts inside one resolver's return latency (released(), then SetContext): call 1 gives up
+and drains behind call 0; call 0's late result is stale and released in its own final section; call 2
+enters only after both are done -/
+def exRun2 : List Ev := [.cfg false 1 true, .invAddRef 0 .rcd, .addRefCS 0, .retAddRef 0, .enter 0 0,
+  .envReleased 0, .relRun 0, .invSetCtx 1 2 false, .setCtxCS 1, .retSetCtx 1 (some true),
+  .giveUp 1, .leave 0 0 1 true 0, .store 0, .cb (.rel 0 0 0), .done 0, .drained 1, .done 1,
+  .enter 2 1, .leave 2 1 2 true 0, .store 2, .cb (.refcb 0 true true 2 0), .done 2, .probe 2 0, .quiesce []]
+
+example : (model.run model.init exRun2).isSome = true := by decide
+example : relCalls exRun2 0 = 1 ∧ relCalls exRun2 2 = 0 := by decide
+
+/-- keep-unreferenced: the value survives the last Release; AddRef(nil) on the resolved container -/
+def exRun3 : List Ev := [.cfg true 1 true, .invAddRef 0 .quiet, .addRefCS 0, .retAddRef 0, .enter 0 0,
+  .leave 0 0 1 true 0, .store 0, .cb (.refcb 0 false true 1 0), .done 0,
+  .invRelease 1 0, .relSwap 1, .relCS 1, .retRelease 1, .probe 1 0, .quiesce [],
+  .invAddRef 2 .nil, .addRefCS 2, .retAddRef 2, .probe 1 0, .quiesce []]
+
+example : (model.run model.init exRun3).isSome = true := by decide
+example : relCalls exRun3 0 = 0 := by decide
 
 end UtilModel.RefCount
